@@ -782,7 +782,7 @@ def _lines_worker(case):
 
 def generate(rng, tier):
     import multiprocessing
-    n, maxops = (1200, 26) if tier == "quick" else (12000, 50)
+    n, maxops = (800, 26) if tier == "quick" else (8000, 50)
     cases = [known_sites_case("memory"), known_sites_case("disk")]
     for i in range(n):
         cases.append(gen_case(rng, maxops))
